@@ -13,6 +13,7 @@ import (
 const c18Find = "find all 'a'"
 const c18Replace = "replace all 'a' with 'xy'"
 const c18ReplaceEmpty = "replace all 'a' with ''"
+const c18FindAny = "find all any"
 const c18Bad = "find every 'a'"
 
 func VerifC18(program int, files int, mode int, twin int) {
@@ -66,6 +67,9 @@ func VerifC18(program int, files int, mode int, twin int) {
 	case 5: // both
 		strFlags = append(strFlags, "com", c18Find, "src", "prog.vore")
 		valid = false
+	case 7: // every byte of the file is a match: the JSON carries arbitrary printable characters (quotes, %, backslashes)
+		strFlags = append(strFlags, "com", c18FindAny)
+		prog = c18FindAny
 	case 6: // a replacement that is the empty string
 		strFlags = append(strFlags, "com", c18ReplaceEmpty)
 		prog = c18ReplaceEmpty
